@@ -65,7 +65,8 @@ def run_shard(rec):
     for bytes_mode, zoo in ((False, gen.literal_zoo()), (True, gen.bytes_zoo())):
         for ztag, lit, alpha in zoo:
             for cname, cx in (('alone', lit), ('seq-rest', ('seq', [lit, ('bre' if bytes_mode else 're', '(?s).*', False)])),
-                              ('star', ('star', lit)), ('alt', ('alt', [('seq', [lit, ('fail', None)]), ('bre' if bytes_mode else 're', '(?s).*', False)])),
+                              ('star', ('star', lit)), ('opt-rest', ('seq', [('opt', lit), ('bre' if bytes_mode else 're', '(?s).*', False)])),
+                              ('alt', ('alt', [('seq', [lit, ('fail', None)]), ('bre' if bytes_mode else 're', '(?s).*', False)])),
                               ('not', ('seq', [('expectnot', lit), ('bre' if bytes_mode else 're', '(?s).?', False)]))):
                 idx += 1
                 if not rec.mine(idx):
